@@ -43,9 +43,11 @@ namespace Env
 
 def emit (e : Env) (o : SOut) : Env := { e with outs := e.outs ++ [o] }
 
-/-- `sendcommand` (workermanage.py:383-386): raises `OSError` when the peer is gone. -/
+/-- `sendcommand` (workermanage.py:383-392, repaired): when the peer is gone the `OSError` of `channel.send` is swallowed —
+    nothing reaches the wire, the caller goes on as if the command had been sent (the end marker reports the node down
+    and `remove_node` recovers what was meant for it). -/
 def send (e : Env) (n : Nat) (o : SOut) : Except PyErr Env :=
-  if (e.flags.get n).broken then .error .osError else .ok (e.emit o)
+  if (e.flags.get n).broken then .ok e else .ok (e.emit o)
 
 def sendRun (e : Env) (n : Nat) (is : List Nat) : Except PyErr Env := e.send n (.run n is)
 def sendRunAll (e : Env) (n : Nat) : Except PyErr Env := e.send n (.runAll n)
